@@ -19,9 +19,20 @@ var commonAssume = []string{
 }
 
 var expectedProbes = map[string][]string{
+	"C01": {"target-restored-not-executed", "early-cutoff-dependant-restored-after-dependency-executed", "invocation-killed"},
+	"C02": {"build-executed-nothing", "early-cutoff-dependant-restored-after-dependency-executed", "restored-into-absent-destination"},
 	"C03": {"wdag-pool-saturated", "lock-contended"},
-	"C04": {"wdag-failure-ran", "select-later-case-ready"},
-	"C05": {"wdag-failure-ran"},
+	"C04": {"wdag-failure-ran", "select-later-case-ready", "invocation-killed"},
+	"C05": {"wdag-failure-ran", "command-killed-by-context"},
+	"C06": {"target-restored-not-executed", "restored-into-absent-destination"},
+	"C07": {"crash-inside-copy", "invocation-killed"},
+	"C08": {"remote-entry-available-to-other-machine", "remote-put-applied-but-error"},
+	"C10": {"wlock-acquired", "invocation-killed"},
+	"C12": {"target-restored-not-executed"},
+	"C13": {"build-executed-nothing"},
+	"C14": {"command-killed-by-context"},
+	"C15": {"target-restored-not-executed"},
+	"C18": {"command-killed-by-context", "killed-at-exit:console/cmd_setup.go:16"},
 }
 
 var realBuild = []string{
